@@ -25,6 +25,8 @@ ATOMS = [
     ("walrus-comp-value", "(c := [{n} for {n} in []])"), ("walrus-nested", "(c := ({n} := 1))"), ("walrus-genexp-value", "(c := list({n} for {n} in []))"),
     ("multiline-list", "{n} = [\n    1,\n    2,\n]"), ("multiline-call", "{n} = max(\n    1,\n    2)"), ("multiline-backslash", "{n} = 1 + \\\n    2"),
     ("multiline-string", "{n} = \"\"\"x\ny\"\"\""),
+    ("comps-in-ifexp", "c = [{n} for {n} in []] if any({n} for {n} in []) else 0"), ("comps-in-dict-key-and-value", "c = {{0: [{n} for {n} in []], tuple({n} for {n} in []): 1}}"),
+    ("comps-in-call-kw-and-star", "c = dict(k=[{n} for {n} in []], **{{str({n}): 0 for {n} in []}})"),
     ("star-target", "[{n}, *c] = [1, 2]"), ("starred-name", "[c, *{n}] = [1, 2]"), ("for", "for {n} in []:\n    pass"),
     ("for-tuple", "for ({n}, c) in []:\n    pass"), ("for-else", "for c in []:\n    pass\nelse:\n    {n} = 1"),
     ("with", "with open('f') as {n}:\n    pass"), ("with-tuple", "with open('f') as ({n}, c):\n    pass"),
@@ -98,7 +100,7 @@ def make_program(chain, atom_src, outer, params, use):
 class C15(Check):
     pid = "C15"
     level = "exploration"
-    rule = ("cases = (scope chain in 19 chains of function/class nesting to depth 3 incl. methods decorated with @property/@staticmethod, binding atom in 67 constructs binding name a, "
+    rule = ("cases = (scope chain in 19 chains of function/class nesting to depth 3 incl. methods decorated with @property/@staticmethod, binding atom in 70 constructs binding name a, "
             "names bound by the enclosing levels in {none, a, b, a+b} uniformly, or independently {none, a+b} per level, parameter "
             "list of the innermost function in 10 kinds, a trailing statement reading a, b and c); programs that CPython rejects "
             "are dropped; evaluations = sub-checks per program: scope tree (kinds and line extents), owned names per scope, "
@@ -201,7 +203,9 @@ class C15(Check):
             nonlocal ok_tree
             res["n"] += 1
             refk = ref_tree(rsc)
-            ropek = sorted(ssc.get_scopes(), key=lambda s: s.get_start())
+            # siblings on one line are paired by column (rope lists them in AST field order, e.g. the test of a
+            # conditional expression before its body)
+            ropek = sorted(ssc.get_scopes(), key=lambda s: (s.get_start(), getattr(s.pyobject.get_ast(), "col_offset", 0)))
             r_desc = [(c.kind, c.lineno, c.node.end_lineno) for c in refk]
             s_desc = [(rkind(s), s.get_start(), s.get_end()) for s in ropek]
             if r_desc != s_desc:
@@ -376,6 +380,25 @@ class C15(Check):
                 if g != want:
                     fail("holding-scope-differs", ["for:line", "want:" + rsc.kind], {"line": lineno, "rope": g, "interpreter": want})
             res["mech"]["holding-scope"] = 1
+            # the same question by offset, asked at the loop variable of every comprehension
+            lstarts = [0]
+            for l_ in src.split("\n"):
+                lstarts.append(lstarts[-1] + len(l_) + 1)
+            for rsc, ssc in pairs:
+                if rsc.kind != "comp":
+                    continue
+                tgt = next((n_ for n_ in ast.walk(rsc.node.generators[0].target) if isinstance(n_, ast.Name)), None)
+                if tgt is None:
+                    continue
+                off_ = lstarts[tgt.lineno - 1] + tgt.col_offset
+                res["n"] += 1
+                try:
+                    got = gscope.get_inner_scope_for_offset(off_)
+                except Exception as e:
+                    fail("internal:" + type(e).__name__, ["in:get_inner_scope_for_offset"], {"offset": off_, "exception": repr(e)})
+                    continue
+                if got is not ssc:
+                    fail("holding-scope-differs", ["for:offset", "want:comp"], {"offset": off_, "rope": (rkind(got), got.get_start()), "interpreter": ("comp", rsc.lineno)})
         res["out"]["program-ok" if not res["fails"] else "program-bad"] = 1
         if triage and not res["fails"]:
             res["passfeat"].append(sorted(feats0))
